@@ -76,7 +76,7 @@ def Config.flags (s : Config) : Flags :=
 
 /-- `Yaml2Regex(path, macros).produce_regex()` on already-loaded documents:
 `doc` is the rule file, `macroDocs` the extra macro files in command-line order -/
-def compileRule (doc : Y) (macroDocs : List Y) (s : Config) : Config × M Rx :=
+def compileRule (doc : Y) (macroDocs : List (M Y)) (s : Config) : Config × M Rx :=
   match doc with
   | .dict d =>
     let cfgY := (dictGet d "config").getD (.dict [])
@@ -91,12 +91,13 @@ def compileRule (doc : Y) (macroDocs : List Y) (s : Config) : Config × M Rx :=
           | none => pure []
           | some (.list l) => pure l
           | some _ => fail "Invalid macros in the pattern file"
-        let extra ← macroDocs.foldlM (fun acc md =>
-          match md with
-          | .dict m => match dictGet m "macros" with
-            | some (.list l) => pure (acc ++ l)
-            | _ => fail "TypeError: macros of a macro file is not a list"
-          | _ => fail "AttributeError: macro file is not a dict") []
+        let extra ← if macros.isEmpty && macroDocs.isEmpty then pure [] else
+          macroDocs.foldlM (fun acc md => do
+            match (← md) with
+            | .dict m => match dictGet m "macros" with
+              | some (.list l) => pure (acc ++ l)
+              | _ => fail "TypeError: macros of a macro file is not a list"
+            | _ => fail "AttributeError: macro file is not a dict") []
         let tree ← if !macros.isEmpty || !macroDocs.isEmpty then resolveAllMacros (extra ++ macros) top
                    else pure top
         compileTree s'.flags tree)
@@ -106,5 +107,41 @@ def compileRule (doc : Y) (macroDocs : List Y) (s : Config) : Config × M Rx :=
 def objdumpArgs (style : Style) (sections : List Str) : List Str :=
   ["-d".toList, "-M".toList, (match style with | .att => "att".toList | .intel => "Intel".toList)]
     ++ sections.flatMap fun sec => ["-j".toList, sec]
+
+/-! ## Complete operations -/
+
+inductive InputKind where | assembly | binary
+  deriving Repr, DecidableEq
+
+/-- the environment: external calls become parameters -/
+structure World where
+  /-- `open(path).read()` of an assembly listing -/
+  readFile : Str → M Str
+  /-- `subprocess.run(["objdump"] + args + [path])`, stdout on success -/
+  objdump : List Str → Str → M Str
+
+structure Op where
+  /-- outcome of opening and YAML-loading the rule file -/
+  doc : M Y
+  macroDocs : List (M Y)
+  kind : InputKind
+  path : Str
+  mode : SearchMode
+  addrOnly : Bool
+  ret : ReturnMode
+
+/-- `MasterOfPuppets(match_config).perform_matching()`: new singleton state and outcome -/
+def runOp (w : World) (s : Config) (op : Op) : Config × M Result :=
+  match op.doc with
+  | .error e => (s, .error e)
+  | .ok doc =>
+    let (s', rx) := compileRule doc op.macroDocs s
+    (s', do
+      let rx ← rx
+      let text ← match op.kind with
+        | .assembly => w.readFile op.path
+        | .binary => w.objdump (objdumpArgs (s'.style.getD .att) (s'.sections.getD [])) op.path
+      let insts ← parseListing text
+      matchInsts rx (s'.range.getD none) op.mode op.addrOnly op.ret insts)
 
 end Jasm
